@@ -725,12 +725,17 @@ func ruleControlCommandIsNamespace(w *core.World, r *core.Report) {
 	}
 	isNs := func(v ssa.Value) bool {
 		c, ok := core.Unwrap(v).(*ssa.Call)
-		return ok && strings.HasSuffix(core.ResolveCall(c).Name, "syncer.touchesBisyncNamespace")
+		if !ok {
+			return false
+		}
+		n := core.ResolveCall(c).Name
+		// the namespace test itself, or (when it is written out in place) the key test it is made of
+		return strings.HasSuffix(n, "syncer.touchesBisyncNamespace") || strings.HasSuffix(n, "syncer.isBisyncNamespaceKey")
 	}
 	bad := ""
 	var pos token.Pos = f.Pos()
 	n := 0
-	okEnum := core.EnumPathsN(f.Blocks[0], 0, 100000, 1, func(p *core.Path) {
+	okEnum := core.EnumPathsN(f.Blocks[0], 0, 100000, 2, func(p *core.Path) {
 		ret, isRet := p.End.(*ssa.Return)
 		if !isRet || ret.Parent() != f || len(ret.Results) != 1 || bad != "" {
 			return
@@ -743,7 +748,35 @@ func ruleControlCommandIsNamespace(w *core.World, r *core.Report) {
 		if known && val {
 			return
 		}
-		if !pathAssumed(p, isNs, false) {
+		// a command without arguments has no key to judge
+		empty := false
+		for _, fct := range p.Conds {
+			c, ok := core.FactCmp(fct)
+			if !ok {
+				continue
+			}
+			c.X, c.Y = p.Resolve(c.X), p.Resolve(c.Y)
+			if c.Op == token.EQL && isLenZero(c) {
+				empty = true
+			}
+			// a scan over the arguments that left its loop at the first test: there was none to visit
+			if fct.If != nil && core.LoopHeadOf(fct.If.Block()) == fct.If.Block() {
+				visits := 0
+				for _, in := range p.Instrs {
+					if in == ssa.Instruction(fct.If) {
+						visits++
+					}
+				}
+				isLenCall := func(v ssa.Value) bool {
+					call, ok := core.Unwrap(v).(*ssa.Call)
+					return ok && isBuiltin(call, "len")
+				}
+				if visits == 1 && (c.Op == token.GEQ || c.Op == token.LEQ) && (isLenCall(c.X) || isLenCall(c.Y)) {
+					empty = true
+				}
+			}
+		}
+		if !pathAssumed(p, isNs, false) && !empty {
 			bad, pos = "the command is answered 'not a control command' on a path on which the namespace test did not say so: a command on the tool's own keys that reaches the stream alone is forwarded to the other site", ret.Pos()
 		}
 	})
